@@ -184,7 +184,7 @@ func NewStoreWithDB(config lib.Config, db *pebble.DB, metrics *lib.Metrics, log 
 		db:         db,
 		writer:     writer,
 		ss:         NewTxn(lssStore, lssStore, latestStatePrefix, true, true, true, nextVersion),
-		Indexer:    &Indexer{NewTxn(hssStore, hssStore, indexerPrefix, false, false, false, nextVersion), config},
+		Indexer:    &Indexer{NewTxn(hssStore, hssStore, indexerPrefix, false, true, false, nextVersion), config},
 		metrics:    metrics,
 		config:     config,
 		mu:         &sync.Mutex{},
@@ -577,7 +577,7 @@ func (s *Store) Reset() {
 	newStore := NewVersionedStore(s.db.NewSnapshot(), newWriter, s.version)
 	// create all new transaction-dependent objects
 	newLSS := NewTxn(newLSSStore, newStore, latestStatePrefix, true, true, true, nextVersion)
-	newIndexer := NewTxn(newStore, newStore, indexerPrefix, false, false, false, nextVersion)
+	newIndexer := NewTxn(newStore, newStore, indexerPrefix, false, true, false, nextVersion)
 	// only after creating all new objects, discard old transactions
 	s.Discard()
 	// update all references
